@@ -58,7 +58,17 @@ ALSO = {'C15_m10': ['C14'], 'C15_m16': ['C14'], 'C03_m15': ['C04'], 'C19_m15': [
         'C03_m18': ['C04'], 'C16_m17': ['C05'], 'C17_m18': ['C05'], 'C19_m18': ['C14'], 'C18_m17': ['C15']}
 
 
+def retired_reason(item):
+    mp = ROOT + '/seeded/%s/meta.json' % item[0]
+    if item[2] == 'seeded' and os.path.exists(mp):
+        return json.load(open(mp)).get('retired')
+    return None
+
+
 def run_item(item):
+    why = retired_reason(item)
+    if why:     # a later fix: commit removed the change's effect: its own demo passes with the patch applied to HEAD
+        return {'name': item[0], 'property': item[1], 'kind': item[2], 'retired': why, 'detected_by': []}
     r = run_one(item)
     r['detected_by'] = [item[1]] if r.get('detected') else []
     for other in ALSO.get(item[0], []):
@@ -119,10 +129,14 @@ def main():
             for line in kf.get('fixed', []):
                 if r['name'].split('_')[-1] in line:
                     what = line.split(' ', 3)[-1][:110]
+        if r.get('retired'):
+            lines.append('| %s | %s | %s | retired | | | %s — %s |' % (r['name'], r['property'], r['kind'], what.replace('|', '/'), r['retired'].replace('|', '/')))
+            continue
         lines.append('| %s | %s | %s | %s | %s | %s | %s |' % (r['name'], r['property'], r['kind'], ('YES' if r.get('detected_by', [r['property']]) == [r['property']] else 'YES (by %s)' % ','.join(r['detected_by'])) if r.get('detected') else ('ERROR ' + r.get('error', '')[:60] if r.get('error') else '**NO**'),
                                                                r.get('violation_keys', ''), '; '.join(r.get('first_keys', []))[:160], what.replace('|', '/')))
-    n = len(res); d = sum(1 for r in res if r.get('detected'))
-    lines += ['', '%d of %d changes detected.' % (d, n)]
+    live = [r for r in res if not r.get('retired')]
+    n = len(live); d = sum(1 for r in live if r.get('detected'))
+    lines += ['', '%d of %d changes detected (%d retired changes, whose effect a later fix: commit removed, are listed but not counted).' % (d, n, len(res) - n)]
     open(ROOT + '/DETECTION.md', 'w').write('\n'.join(lines) + '\n')
     print('%d of %d detected' % (d, n))
 
